@@ -1,15 +1,15 @@
 CONSTANTS
-  MaxCmds = 100000
-  MaxPending = 8
-  MaxNum = 100000
-  MaxItems = 1000
-  MaxUid = 100000
-  MaxCode = 100000
+  MaxCmds = 14
+  MaxPending = 3
+  MaxNum = 6
+  MaxItems = 3
+  MaxUid = 4
+  MaxCode = 3
   NFlagSets = 2
   Kinds = {"NOOP", "LOGIN", "SELECT", "UNSELECT", "STATUS", "LIST", "SEARCH", "ESEARCH", "FETCH", "EXPUNGE", "LOGOUT"}
   Greetings = {"OK"}
-INIT TraceInit
-NEXT TraceNext
-INVARIANTS TypeOK
-POSTCONDITION TraceAccepted
+  SimDepth = 60
+  Count = FALSE
+INIT GenInit
+NEXT GenNext
 CHECK_DEADLOCK FALSE
